@@ -61,12 +61,23 @@ template <typename Char>
 constexpr Char letter(int i)
 {
     constexpr unsigned v[] = {'a', 'b', 'c', 0, 0x80};
+    // letters 5 and 6 (added after seeded breakage c04_memcmp_char16_order): code units whose value order and
+    // byte order disagree on a little-endian machine - 0x0100 sorts after 'a' but its first byte (0x00) before
+    if (i >= 5) {
+        constexpr unsigned wide[]   = {0x0100, 0x20AC};
+        constexpr unsigned narrow[] = {0xFF, 0x7F};
+        if constexpr (sizeof(Char) >= 2) {
+            return static_cast<Char>(wide[i - 5]);
+        } else {
+            return static_cast<Char>(static_cast<unsigned char>(narrow[i - 5]));
+        }
+    }
     return static_cast<Char>(static_cast<unsigned char>(v[i]));
 }
 
 inline char const* letter_name(int l)
 {
-    static char const* n[] = {"'a'", "'b'", "'c'", "NUL", "0x80"};
+    static char const* n[] = {"'a'", "'b'", "'c'", "NUL", "0x80", "0x0100|0xFF", "0x20AC|0x7F"};
     return n[l];
 }
 
@@ -2044,6 +2055,7 @@ void add_char(mc::Main& m)
         add<Char, N>(m, th, closure({0, 1}, 3, 3), "closure-L3");
         add<Char, N>(m, th, closure({0, 3}, 2, 2), "closure-nul");
         add<Char, N>(m, th, closure({0, 1, 4}, 2, 2), "closure-hibit");
+        add<Char, N>(m, both, closure({0, 5, 6}, 2, 2), "closure-wide");
     };
     // boundary configurations: capacities around the layout / size-type boundaries
     auto big = [&]<std::size_t N>(std::integral_constant<std::size_t, N>) {
